@@ -47,7 +47,13 @@ package align
 //@ func Global
 //@   props C08 C09
 //@   witness blocks
+//@   witness T0 from traceAlignmentSteps
 //@   let G := 255
+//@   use-lemma pathScoreG(fieldarr(blocks, score), fieldarr(blocks, step), a, b, len(a), len(b), mapval(m), T0, len(T0), len(T0))
+//@   ensures @C08 len(result.0) == len(T0) && forall x int :: 0 <= x && x < len(result.0) ==> result.0[x] == T0[len(result.0) - 1 - x]
+//@   ensures @C08 forall x int :: 0 <= x && x < len(T0) ==> T0[x] == 1 || T0[x] == 2 || T0[x] == 3
+//@   ensures @C08 ra(T0, len(T0)) == len(a) && rb(T0, len(T0)) == len(b)
+//@   ensures @C08 result.1 == rscore(T0, a, b, len(a), len(b), mapval(m), len(T0))
 //@   requires imul(len(a) + 1, len(b) + 1) <= 4611686018427387904
 //@   ensures len(blocks) == imul(len(a) + 1, len(b) + 1)
 //@   ensures forall c int :: 0 <= c && c < len(blocks) ==> cellG(fieldarr(blocks, score), fieldarr(blocks, step), a, b, len(b) + 1, mapval(m), c)
@@ -64,14 +70,28 @@ package align
 
 //@ func traceAlignmentSteps
 //@   props C08 C09
+//@   witness T0
+//@   let last := len(blocks) - 1
 //@   requires bn >= 1 && len(blocks) >= 1 && bn <= 144115188075855872
 //@   requires forall c int :: 0 < c && c < len(blocks) ==> stepsOK(fieldarr(blocks, step), bn, c)
 //@   ensures result.1 == blocks[len(blocks)-1].score
+//@   ensures @C08 len(result.0) == len(T0) && forall x int :: 0 <= x && x < len(result.0) ==> result.0[x] == T0[len(result.0) - 1 - x]
+//@   ensures @C08 forall j int :: {pcT(T0, bn, last, j)} 0 <= j && j < len(T0) ==>
+//@             0 < pcT(T0, bn, last, j) && pcT(T0, bn, last, j) < len(blocks) && T0[j] == blocks[pcT(T0, bn, last, j)].step
+//@   ensures @C08 pcT(T0, bn, last, len(T0)) == 0
+//@   ensures @C08 forall x int :: 0 <= x && x < len(T0) ==> T0[x] == 1 || T0[x] == 2 || T0[x] == 3
 //@   loop 1
 //@     invariant 0 <= i && i < len(blocks)
+//@     invariant @C08 i == pcT(steps, bn, last, len(steps))
+//@     invariant @C08 forall x int :: 0 <= x && x < len(steps) ==> steps[x] == 1 || steps[x] == 2 || steps[x] == 3
+//@     invariant @C08 forall j int :: {pcT(steps, bn, last, j)} 0 <= j && j < len(steps) ==>
+//@                 0 < pcT(steps, bn, last, j) && pcT(steps, bn, last, j) < len(blocks) && steps[j] == blocks[pcT(steps, bn, last, j)].step
 //@     decreases i
 //@   loop 2
-//@     invariant 0 <= i
+//@     snapshot T0 := steps
+//@     invariant 0 <= i && len(steps) == len(T0) && 2 * i <= len(steps) + 1
+//@     invariant forall x int :: 0 <= x && x < len(steps) ==> steps[x] == ((x < i || x > len(steps) - 1 - i) ? T0[len(steps) - 1 - x] : T0[x])
+//@     invariant i == pcT(T0, bn, last, len(T0)) || true
 
 //@ func Local
 //@   props C08 C09
